@@ -10,10 +10,10 @@ LEVEL = ('TLC checks the property\'s invariants / action properties on every sta
 NOTE = 'bounded model (constants in spec/cfg/*.cfg); TLC, the Rust harness (number codec, renderer) and rust_decimal are trusted'
 CHECKS = {
  'C01': ('tlc-cgt', 'TLA+ spec Cgt.tla (matcher state machine) model-checked with TLC; spec->impl replay of every TLC behaviour (legs, costs, proceeds, gains) at several base dates and line orders; implementation-shaped machines Matcher.tla (day cells) and Lines.tla (transaction lines of several securities in file order) model-checked to refine Cgt.tla (MC_Matcher, MC_Lines: every line order) and replayed exactly; traces recorded from the real matcher (verif hooks) validated by TLC against CgtTrace.tla'),
- 'C02': ('tlc-cgt', 'TLA+ spec Cgt.tla conservation invariants model-checked with TLC; the same equalities evaluated on the implementation\'s report for every TLC behaviour'),
- 'C03': ('tlc-cgt', 'TLA+ spec Cgt.tla CostConserved invariant model-checked; replay of every behaviour; for cost-event ledgers a second TLC pass (Obs_Cgt.tla) re-runs the spec on the apportionment recorded by the verif hooks and compares legs and pools exactly'),
+ 'C02': ('tlc-cgt', 'TLA+ spec Cgt.tla conservation invariants model-checked with TLC; the same equalities evaluated on the implementation\'s report for every TLC behaviour; the same invariants (model-checked in the bounded families) evaluated on the implementation\'s report for seeded ledgers of 60-140 lines of one security (long_q)'),
+ 'C03': ('tlc-cgt', 'TLA+ spec Cgt.tla CostConserved invariant model-checked; replay of every behaviour; for cost-event ledgers a second TLC pass (Obs_Cgt.tla) re-runs the spec on the apportionment recorded by the verif hooks and compares legs and pools exactly; the same invariants (model-checked in the bounded families) evaluated on the implementation\'s report for seeded ledgers of 60-140 lines of one security (long_q)'),
  'C04': ('tlc-report', 'TLA+ spec Report.tla / MC_Report.tla (per-year totals, exemption look-up) model-checked; per-year totals and identities compared on the real TaxReport'),
- 'C05': ('tlc-cgt', 'TLA+ spec Cgt.tla (CheckHolding / FailIffUncovered) model-checked over covered and uncovered ledgers alike; accept/refuse and error text compared for every TLC behaviour'),
+ 'C05': ('tlc-cgt', 'TLA+ spec Cgt.tla (CheckHolding / FailIffUncovered) model-checked over covered and uncovered ledgers alike; accept/refuse and error text compared for every TLC behaviour; line-level machine Lines.tla (refinement onto Cgt.tla, exact replay incl. files padded past every size threshold); the same invariants (model-checked in the bounded families) evaluated on the implementation\'s report for seeded ledgers of 60-140 lines of one security (long_q)'),
  'C06': ('tlc-cgt', 'TLC-enumerated cell ledgers rendered as many line orders / fill splittings / ticker cases; implementation run compared with implementation run and with the spec outcome'),
  'C07': ('tlc-report', 'TLA+ Calendar.tla: every date 1899-12-31..2101-12-31 is a TLC state (partition invariant) replayed through three derivations in the code; MC_Report slices vs all-years report'),
  'C08': ('tlc-fx', 'TLA+ spec Fx.tla (load / convert state machine) model-checked with TLC; every behaviour replayed through cgt-money + calculate and a sample through the cgt-tool binary; GBP-twin law'),
